@@ -404,7 +404,7 @@ unit({
     'name': 'wrt',
     'includes': ['kr.h', 'wr.h'],
     'typemap': {'Reader': 'Rd', 'std::array<char,BufferSize>': 'chunk_buf', 'std::string': 'str'},
-    'structs': [STR_VIEW, VIEW('vec_u8', 'uint8_t'), VIEW('vec_u32', 'uint32_t'), ('src/Stream/Writer.h', 'Writer', {'cname': 'WriterCls'}),
+    'structs': [STR_VIEW, VIEW('vec_u8', 'uint8_t'), VIEW('vec_u32', 'uint32_t'), VIEW('str16', 'uint16_t'), ('src/Stream/Writer.h', 'Writer', {'cname': 'WriterCls'}),
                 'typedef struct chunk_buf { char* e; } chunk_buf;'],
     'default_ctors': {'chunk_buf': 'chunk_buf_init'},
     'calls': {
@@ -422,6 +422,8 @@ unit({
         for tag_, st_ in (('u32', 'uint32_t'), ('u16', 'uint16_t'), ('u8', 'uint8_t'), ('i16', 'int16_t'), ('i8', 'int8_t'))
     ] + [
         _rdh(0, 'Reader_Read'),
+        _rdh(3, 'Reader_Read_u16string', typemap={'std::basic_string<CharT,Traits,Allocator>': 'str16', 'CharT': 'uint16_t'}, calls={'Read': {2: T('Reader_Read')}}, views=[(r'\(\*string\)', 'vec')]),
+        _rdh(2, 'Reader_Read_vec_u32', tbind={'T': 'vec_u32'}, typemap={'typename T::value_type': 'uint32_t', 'T::value_type': 'uint32_t'}, views=[(r'\(\*container\)', 'vec')]),
     ],
 })
 
@@ -512,11 +514,13 @@ def _cf(name, **kw):
     d.update(kw); return d
 unit({
     'name': 'clm',
-    'includes': ['kr.h'],
+    'includes': ['kr.h', 'kf.h', 'wr.h', 'volw.h'],
+    'vecptr_types': ('vec_Fr',),
+    'ctor_calls': {'FileWriterT': {'fn': 'FileWriter_ctor', 'throws': True}},
     'typemap': CLM_TM,
     'structs': [STR_VIEW, TAG_T, VIEW('vec_str', 'str'), ARR('arr_char_32', 'char', 32), ARR('arr_char_6', 'char', 6), ARR('arr_char_8', 'char', 8),
                 (WFH, 'WaveFormatEx'), (WFH, 'RiffHeader'), (WFH, 'FormatChunk'), (WFH, 'ChunkHeader'), (WFH, 'WaveHeader'),
-                (CH, 'ClmHeader'), (CH, 'IndexEntry', {'cname': 'ClmIndexEntry'}), VIEW('vec_ClmIndexEntry', 'ClmIndexEntry'), VIEW('vec_WaveFormatEx', 'WaveFormatEx')],
+                (CH, 'ClmHeader'), (CH, 'IndexEntry', {'cname': 'ClmIndexEntry'}), VIEW('vec_ClmIndexEntry', 'ClmIndexEntry'), VIEW('vec_WaveFormatEx', 'WaveFormatEx'), VIEW('vec_Fr', 'Fr')],
     'globals': [{'file': WFH, 'qual': 'tag' + t_, 'ctype': 'Tag', 'cname': 'tag' + t_} for t_ in ('RIFF', 'WAVE', 'FMT_', 'DATA')] + [
         {'file': CF, 'qual': 'standardFileVersion', 'ctype': 'arr_char_32', 'cname': 'standardFileVersion'},
         {'file': CF, 'qual': 'standardUnknown', 'ctype': 'arr_char_6', 'cname': 'standardUnknown'}],
@@ -536,8 +540,16 @@ unit({
         {'file': CF, 'qual': 'ClmFile::ClmHeader::VerifyFileVersion', 'cls': 'ClmHeader', 'cname': 'ClmHeader_VerifyFileVersion'},
         {'file': CF, 'qual': 'ClmFile::ClmHeader::VerifyUnknown', 'cls': 'ClmHeader', 'cname': 'ClmHeader_VerifyUnknown'},
         _cf('FindChunk'),
+        _cf('ReadAllWaveHeaders', typemap={'std::vector<std::unique_ptr<Stream::FileReader>>': 'vec_Fr'},
+            calls={'Read': {1: T('Fr_Read', args=['obj'])}, 'Length': N('Fr_Length'), 'FindChunk': T('ClmFile_FindChunk_F', recv='none', args=[None, 'ref'])},
+            views=[(r'\(\*filesToPackReaders\)', 'vecptr'), (r'\(\*waveFormats\)', 'vec'), (r'\(\*indexEntries\)', 'vec')]),
         _cf('CompareWaveFormats'),
         _cf('PrepareIndex'),
+        _cf('WriteArchive', typemap={'std::vector<std::unique_ptr<Stream::FileReader>>': 'vec_Fr', 'Stream::FileWriter': 'FileWriterT'},
+            calls={'MakeHeader': N('ClmHeader_MakeHeader', recv='none', args=['ref']), 'PrepareIndex': T('ClmFile_PrepareIndex', recv='none', args=[None, 'ref', 'ref']),
+                   'Write': {1: [(r'header', T('Wr_Write', args=['objtmp'])), (r'\(\*indexEntries\)', T('Wr_Write', args=['vec'])), (r'\*.*filesToPackReaders.*', T('Wr_WriteReaderFr', args=['ref'])), (r'slice', T('Wr_WriteSliceT', args=['ref']))]},
+                   'Slice': {1: T('Fr_Slice1')}},
+            views=[(r'\(\*filesToPackReaders\)', 'vecptr'), (r'\(\*indexEntries\)', 'vec'), (r'\(\*names\)', 'vec')]),
     ],
 })
 
